@@ -310,6 +310,7 @@ def doc_has_call_in_ccall_args(doc):
 
 
 def gen_cases(tier, seed):
+    yield {"kind": "suite"}
     n = 8000 if tier == "quick" else 80000
     per = 50
     for i in range(n // per):
@@ -325,6 +326,17 @@ def run_case(case):
             doc = gen_doc(r, case["depth"])
             bf = ["gz"] if r.random() < 0.3 else []
             run_doc(doc, res, {"kind": "doc", "doc": doc, "bf": bf}, bf)
+    elif case["kind"] == "suite":
+        rep = common.run_suite_with_monitors()
+        if rep is None:
+            res.count("suite_skipped_no_tests")
+        elif "error" in rep:
+            res.violate("suite-run-failed", "the repository suite could not be run under the monitor: %s" % rep["error"])
+        else:
+            res.evaluations += 1
+            res.count("suite_frames_checked", rep["frames"])
+            for p in rep["render_problems"]:
+                res.violate("suite-render-state-unbalanced", "while the repository's own tests ran: %s" % p)
     elif case["kind"] == "doc":
         run_doc(fix(case["doc"]), res, case, case["bf"])
     return res
